@@ -111,7 +111,9 @@ Definition serialise (g : graph) : str :=
 (* node_attrs = [element, aromatic, charge, hcount]; edge_attrs = [order, standard_order] *)
 Definition acode (g : graph) (v : N) : list Z :=
   let a := attr_of g v in enc_str (el a) ++ [b2z (ar a); ch a; hc a].
-Definition ecode (a : eattr) : list Z := [eo a; std0 a].
+(* per attribute (present?, value or 0) — repair of round 2: a missing standard_order stays comparable; on graphs whose
+   edges all carry or all lack the attribute the order of the codes is unchanged *)
+Definition ecode (a : eattr) : list Z := [eo a; (match es a with Some _ => 1 | None => 0 end)%Z; std0 a].
 
 (* _node_signature: (node attrs, degree, neighbours per cell, sorted multiset of edge attrs) *)
 Definition sigN (g : graph) (P : partition) (v : N) : list Z :=
